@@ -404,3 +404,131 @@ Proof.
   exact (conj ex2_ranked (conj ex2_stamps (conj ex2_start1_reachable (conj ex2_final_reachable
         (conj ex2_sched1_run (conj ex2_round1 (conj ex2_round2 (conj ex2_spec ex2_bound)))))))).
 Qed.
+
+(* ============================================================================================ *)
+(* STAGE 4: DYNAMIC CALL LISTS — the model CFetchD (CFetchD/Model.v): a body is a resumable
+   computation ([BRet] / [BIn] / [BCall]: keys computed from values, branches, a callee called
+   twice, bodies that read nothing); the recorded dependency list is the dynamic trace (inputs
+   and calls interleaved, no repetition, reads of never-changing durability not recorded — as
+   ActiveQuery::add_read); deep verification walks it; durabilities and the durability short-cut
+   are in the model behind the switch [sc].
+   PROVED here (model without the short-cut, [sc = false]; no input of never-changing
+   durability): every returned value and every memo is the from-scratch value
+   ([C16_values_computed_dyn], [C16_memo_writes_sound_dyn]); the recorded edges of a memo
+   determine its value, which is what makes mark_verified after a walk sound
+   ([C16_recorded_edges_determine_dyn]); claims are exclusive, for both settings of the switch
+   ([C16_claims_exclusive_dyn], directly from Proto).
+   NOT PROVED for CFetchD (stated below as [..._full_statement], no proof): the refinement to
+   CFetch (CFetch's insert_memo stores the call list it executed; CFetchD's recorded list is
+   shorter — repeated and never-changing callees — so CFetch needs a separate recorded list
+   first), hence no-deadlock and termination; the value theorem WITH the short-cut.  The trace
+   replay (checks/C16.py) runs the model with the short-cut on and reports the runs in which it
+   fires separately. *)
+From Salsa.CFetchD Require Model ProofsRel ProofsSync ProofsVal ProofsTop Examples.
+Import Salsa.CFetchD.Model Salsa.CFetchD.ProofsSync Salsa.CFetchD.ProofsVal Salsa.CFetchD.ProofsTop
+  Salsa.CFetchD.Examples.
+
+Theorem C16_values_computed_dyn :
+  forall fuel Q rank s t k r v,
+  Salsa.CFetchD.ProofsRel.rankedD Q rank -> Salsa.CFetchD.ProofsRel.stampsD_ok Q -> no_never Q ->
+  creachD fuel Q false s ->
+  In (ERet t k r v) (cD_log s) -> v = ED Q rank r k.
+Proof. exact values_computedD. Qed.
+
+Check C16_values_computed_dyn :
+  forall fuel Q rank s t k r v,
+  Salsa.CFetchD.ProofsRel.rankedD Q rank -> Salsa.CFetchD.ProofsRel.stampsD_ok Q -> no_never Q ->
+  creachD fuel Q false s ->
+  In (ERet t k r v) (cD_log s) -> v = ED Q rank r k.
+Print Assumptions C16_values_computed_dyn.
+
+Theorem C16_memo_writes_sound_dyn :
+  forall fuel Q rank s k m,
+  Salsa.CFetchD.ProofsRel.rankedD Q rank -> Salsa.CFetchD.ProofsRel.stampsD_ok Q -> no_never Q ->
+  creachD fuel Q false s ->
+  cD_memo s k = Some m -> o_val m = ED Q rank (o_ver m) k.
+Proof. exact memo_soundD. Qed.
+
+Check C16_memo_writes_sound_dyn :
+  forall fuel Q rank s k m,
+  Salsa.CFetchD.ProofsRel.rankedD Q rank -> Salsa.CFetchD.ProofsRel.stampsD_ok Q -> no_never Q ->
+  creachD fuel Q false s ->
+  cD_memo s k = Some m -> o_val m = ED Q rank (o_ver m) k.
+Print Assumptions C16_memo_writes_sound_dyn.
+
+(* a revision that agrees with the memo's verified_at on every RECORDED edge (input values,
+   from-scratch values of the recorded callees) has the memo's value as its from-scratch value *)
+Theorem C16_recorded_edges_determine_dyn :
+  forall fuel Q rank s k m r',
+  Salsa.CFetchD.ProofsRel.rankedD Q rank -> Salsa.CFetchD.ProofsRel.stampsD_ok Q -> no_never Q ->
+  creachD fuel Q false s ->
+  cD_memo s k = Some m ->
+  (forall e, In e (o_deps m) -> esameR Q rank (o_ver m) r' e) ->
+  ED Q rank r' k = o_val m.
+Proof. exact recorded_edges_determineD. Qed.
+
+Check C16_recorded_edges_determine_dyn :
+  forall fuel Q rank s k m r',
+  Salsa.CFetchD.ProofsRel.rankedD Q rank -> Salsa.CFetchD.ProofsRel.stampsD_ok Q -> no_never Q ->
+  creachD fuel Q false s ->
+  cD_memo s k = Some m ->
+  (forall e, In e (o_deps m) -> esameR Q rank (o_ver m) r' e) ->
+  ED Q rank r' k = o_val m.
+Print Assumptions C16_recorded_edges_determine_dyn.
+
+(* two frames past the claim for one key belong to one handle and are one frame — with or
+   without the short-cut, any program *)
+Theorem C16_claims_exclusive_dyn :
+  forall fuel Q sc s, creachD fuel Q sc s -> exclD s.
+Proof. exact claims_exclusiveD. Qed.
+
+Check C16_claims_exclusive_dyn :
+  forall fuel Q sc s, creachD fuel Q sc s -> exclD s.
+Print Assumptions C16_claims_exclusive_dyn.
+
+(* ---- NOT PROVED for CFetchD: statements only ---- *)
+Definition C16_no_deadlock_dyn_full_statement : Prop :=
+  forall fuel Q rank s,
+  Salsa.CFetchD.ProofsRel.rankedD Q rank -> Salsa.CFetchD.ProofsRel.stampsD_ok Q -> no_never Q ->
+  creachD fuel Q false s -> (length (cD_tids s) < fuel)%nat ->
+  (exists t, In t (cD_tids s) /\ donebD (cD_thr s t) = false) ->
+  exists t c s', tstepD fuel Q false s t c = Some s'.
+
+Definition C16_termination_dyn_full_statement : Prop :=
+  forall fuel Q rank s,
+  Salsa.CFetchD.ProofsRel.rankedD Q rank -> Salsa.CFetchD.ProofsRel.stampsD_ok Q -> no_never Q ->
+  creachD fuel Q false s ->
+  exists bound, forall l s',
+    Forall (fun o => match o with GStep _ _ => True | _ => False end) l ->
+    grunD fuel Q false l s = Some s' -> (length l <= bound)%nat.
+
+(* with the short-cut: writes at durability d move last_changed of the levels <= d; an input is
+   unchanged over a window in which its durability level saw no write *)
+Definition durab_ok (Q : progD) : Prop :=
+  (forall r d d', d <= d' -> d_lc Q r d' <= d_lc Q r d) /\
+  (forall r d, d_lc Q r d <= r) /\
+  (forall r r0 i, r0 <= r -> d_lc Q r (d_idur Q r0 i) <= r0 ->
+     d_in Q r i = d_in Q r0 i /\ d_stamp Q r i = d_stamp Q r0 i /\ d_idur Q r i = d_idur Q r0 i).
+
+Definition C16_values_computed_shortcut_full_statement : Prop :=
+  forall fuel Q rank s t k r v,
+  Salsa.CFetchD.ProofsRel.rankedD Q rank -> Salsa.CFetchD.ProofsRel.stampsD_ok Q -> no_never Q ->
+  durab_ok Q -> creachD fuel Q true s ->
+  In (ERet t k r v) (cD_log s) -> v = ED Q rank r k.
+
+(* non-vacuity: a program with a body that reads nothing, a branch on an input, a repeated
+   callee and a computed key satisfies the hypotheses; two handles, three revisions; the
+   returned values, with and without the short-cut, are the from-scratch values 9, 13, 18 *)
+Example C16_dyn_witness :
+  Salsa.CFetchD.ProofsRel.rankedD Qx rankx /\ Salsa.CFetchD.ProofsRel.stampsD_ok Qx /\ no_never Qx /\
+  creachD 8 Qx false s2 /\
+  (ED Qx rankx 1 4, ED Qx rankx 2 4, ED Qx rankx 3 4) = (9, 13, 18) /\
+  top_rets s2 = [(1, 9); (1, 9); (2, 13); (3, 18); (3, 18)] /\
+  top_rets s2c = top_rets s2 /\
+  forallb (fun t => donebD (cD_thr s2 t)) (cD_tids s2) = true /\
+  deps_of s1 3 = Some (3, 3, 0, [EIn 2; ECall 2]) /\
+  deps_of s1 1 = Some (1, 1, 3, []).
+Proof.
+  exact (conj rankedx (conj stampsx (conj no_neverx (conj s2_reachable (conj spec4
+        (conj run2_values (conj run2_values_shortcut (conj run2_all_done (conj run1_deps_3 run1_deps_1))))))))).
+Qed.
